@@ -102,6 +102,16 @@ impl Opts {
 }
 
 static LAST_BEAT: AtomicU64 = AtomicU64::new(0);
+static LAST_CPU: AtomicU64 = AtomicU64::new(0);
+
+/// CPU time consumed by this process so far, in milliseconds (all threads; the watchdog thread sleeps)
+fn cpu_ms() -> u64 {
+    let mut ts = libc::timespec { tv_sec: 0, tv_nsec: 0 };
+    unsafe {
+        libc::clock_gettime(libc::CLOCK_PROCESS_CPUTIME_ID, &mut ts);
+    }
+    ts.tv_sec as u64 * 1000 + ts.tv_nsec as u64 / 1_000_000
+}
 static IN_CALL: AtomicU64 = AtomicU64::new(0);
 
 fn now_ms() -> u64 {
@@ -178,6 +188,7 @@ impl Log {
         writeln!(self.w, "C\t{}", json!({"op": op, "a": args})).unwrap();
         self.w.flush().unwrap();
         LAST_BEAT.store(now_ms(), Ordering::SeqCst);
+        LAST_CPU.store(cpu_ms(), Ordering::SeqCst);
         IN_CALL.store(1, Ordering::SeqCst);
         let res = catch_unwind(AssertUnwindSafe(f));
         IN_CALL.store(0, Ordering::SeqCst);
@@ -226,8 +237,14 @@ pub fn install_guards(call_timeout_ms: u64, mem_bytes: u64) {
     std::thread::spawn(move || loop {
         std::thread::sleep(std::time::Duration::from_millis(200));
         if IN_CALL.load(Ordering::SeqCst) == 1 {
+            // a runaway call is one that has CONSUMED more than the limit of processor time (a loaded
+            // machine must not turn a slow call into a finding); a call that blocks without computing is
+            // given thirty times the limit of wall-clock time
             let t0 = LAST_BEAT.load(Ordering::SeqCst);
-            if now_ms().saturating_sub(t0) > call_timeout_ms {
+            let c0 = LAST_CPU.load(Ordering::SeqCst);
+            if cpu_ms().saturating_sub(c0) > call_timeout_ms
+                || now_ms().saturating_sub(t0) > 30 * call_timeout_ms
+            {
                 // the pending C line is already flushed: leave it dangling
                 unsafe { libc::_exit(3) };
             }
